@@ -42,7 +42,9 @@ def tensor_attr(it, tv, attr, node):
         g = tv.obj.grad
         return g if g is not None else VConst(None)
     if attr == "_version":
-        return VNum("int", T.sym("ver:T%d:%d" % (tv.obj.id, tv.obj.version)), nonneg=True)
+        if tv.obj.version == 0 and tv.obj.origin == "fresh":
+            return VConst(0)  # a tensor made by an out-of-place operation and never written in place: torch's counter is 0
+        return VNum("int", T.sym("ver:T%d:%d" % (getattr(tv.obj, "ver_id", tv.obj.id), tv.obj.version)), nonneg=True)
     if attr == "device" and getattr(tv.obj.dtype_root(), "device_val", None) is not None:
         return tv.obj.dtype_root().device_val
     if attr in ("dtype", "device", "layout"):
@@ -467,6 +469,26 @@ def tensor_method(it, tv, name, args, kwargs, node):
         from .ops_ext import torch_roll
 
         return torch_roll(it, [tv] + list(args), kwargs, node)
+    if name == "unbind" and tv.shape:
+        dm = args[0] if args else kwargs.get("dim", VConst(0))
+        okd, dv = const_of(dm)
+        if okd and isinstance(dv, int) and dv in (0, -1, len(tv.shape) - 1, -len(tv.shape)):
+            # x.unbind(d): the tuple of the slices x.select(d, j), j = 0 .. shape[d] - 1 (one generic element and its range)
+            from .ops import val_of_dim, index_tensor
+
+            last = dv in (-1, len(tv.shape) - 1) and len(tv.shape) > 1
+            n_ = tv.shape[-1 if last else 0]
+            if isinstance(n_, int) and 0 < n_ <= 8:
+                # a known small number of slices (the real / imaginary pair, ...): the tuple itself
+                return VTuple([index_tensor(it, tv, ([VConst(Ellipsis), VConst(k_)] if last else [VConst(k_)]), node) for k_ in range(n_)])
+            lt = num_term(val_of_dim(tv.shape[-1 if last else 0]))
+            if lt is not None:
+                i = VNum("int", T.sym("i@%s" % it.site(node)), nonneg=True)
+                lv = it.new_list(None)
+                lv.obj.elem = index_tensor(it, tv, ([VConst(Ellipsis), i] if last else [i]), node)
+                lv.obj.comp_node = node
+                lv.obj.comp_iter = ("range", T.ZERO, lt, T.ONE)
+                return lv
     if name == "split" and args:
         r = split_list(it, tv, args[0], args[1] if len(args) > 1 else kwargs.get("dim"), node)
         if r is not None:
